@@ -21,6 +21,8 @@ type racGen struct {
 	w     *World
 	pkg   *ssa.Package
 	kinds map[string]string // variable -> int|bool|string|bytes|error|other
+	types map[string]types.Type
+	execMemo map[string]bool
 	funcs map[string]bool   // spec functions needed
 	out   strings.Builder
 	fail  string
@@ -170,6 +172,25 @@ func (g *racGen) expr(e Expr) (string, string) {
 			hi, _ = g.expr(x.Hi)
 		}
 		return a + "[" + lo + ":" + hi + "]", k
+	case *SelE:
+		if id, ok := x.X.(*Ident); ok {
+			if t, ok := g.types[id.Name]; ok {
+				if st, _, ok := derefStruct(t); ok {
+					for i := 0; i < st.NumFields(); i++ {
+						if st.Field(i).Name() == x.Name {
+							k := kindOfType(st.Field(i).Type())
+							code := goIdent(id.Name) + "." + x.Name
+							if k == "int" {
+								code = "int(" + code + ")"
+							}
+							return code, k
+						}
+					}
+				}
+			}
+		}
+		g.fail = "selector not executable: " + e.String()
+		return "0", "int"
 	case *CallE:
 		switch x.Fun {
 		case "len", "cap":
@@ -182,7 +203,11 @@ func (g *racGen) expr(e Expr) (string, string) {
 			b, _ := g.expr(x.Args[1])
 			return x.Fun + "(" + a + ", " + b + ")", "int"
 		}
-		if sf, ok := g.w.cs.Specs[x.Fun]; ok && sf.Body != nil {
+		if sf, ok := g.w.cs.Specs[x.Fun]; ok && (sf.Body != nil || sf.Exec != "") {
+			if !g.executable(sf) {
+				g.fail = "function " + x.Fun + " not executable"
+				return "0", "int"
+			}
 			g.funcs[x.Fun] = true
 			var as []string
 			for _, a := range x.Args {
@@ -227,6 +252,34 @@ func (g *racGen) expr(e Expr) (string, string) {
 	return "false", "bool"
 }
 
+// executable: the spec function (transitively) compiles to Go.
+func (g *racGen) executable(sf *SpecFun) bool {
+	if sf.Exec != "" {
+		return true
+	}
+	if sf.Body == nil {
+		return false
+	}
+	if ok, seen := g.execMemo[sf.Name]; seen {
+		return ok
+	}
+	if g.execMemo == nil {
+		g.execMemo = map[string]bool{}
+	}
+	g.execMemo[sf.Name] = true // assume ok for recursion
+	sub := &racGen{w: g.w, pkg: g.pkg, kinds: map[string]string{}, funcs: map[string]bool{}, types: map[string]types.Type{}, execMemo: g.execMemo}
+	for _, p := range sf.Params {
+		sub.kinds[p.Name] = kindOfName(p.Type)
+	}
+	sub.expr(sf.Body)
+	ok := sub.fail == ""
+	g.execMemo[sf.Name] = ok
+	for f := range sub.funcs {
+		g.funcs[f] = true
+	}
+	return ok
+}
+
 func goIdent(s string) string {
 	switch s {
 	case "len", "cap", "type", "func", "range", "map":
@@ -255,7 +308,12 @@ func (g *racGen) specFuncs() string {
 				g.kinds[p.Name] = k
 				ps = append(ps, goIdent(p.Name)+" "+goTypeOfKind(k))
 			}
-			body, _ := g.expr(sf.Body)
+			var body string
+			if sf.Exec != "" {
+				body = sf.Exec
+			} else {
+				body, _ = g.expr(sf.Body)
+			}
 			g.kinds = saved
 			fmt.Fprintf(&b, "func spec_%s(%s) %s { return %s }\n", name, strings.Join(ps, ", "), goTypeOfKind(kindOfName(sf.Result)), body)
 		}
@@ -273,19 +331,55 @@ type ReplayResult struct {
 	TestFile  string
 	Input     map[string]interface{}
 	Skipped   string
+	Mode      string // model | bounded-search
+	Witness   string
 }
 
-// replay runs the real function on the model's input with the contract evaluated at run time.
-func (w *World) replay(v *FnVC, ob *Obligation, input map[string]interface{}, outDir string) *ReplayResult {
-	rr := &ReplayResult{Input: input}
+// charLits collects character literals of a contract (alphabet for the bounded search).
+func charLits(fc *FuncContract, w *World) []byte {
+	seen := map[byte]bool{'a': true, '0': true}
+	var visit func(e Expr, depth int)
+	visit = func(e Expr, depth int) {
+		walkExpr(e, func(x Expr) {
+			if l, ok := x.(*IntLit); ok && l.V >= 33 && l.V < 127 {
+				seen[byte(l.V)] = true
+			}
+			if c, ok := x.(*CallE); ok && depth < 4 {
+				if sf, ok := w.cs.Specs[c.Fun]; ok && sf.Body != nil {
+					visit(sf.Body, depth+1)
+				}
+			}
+		})
+	}
+	for _, cl := range fc.Clauses {
+		visit(cl.E, 0)
+	}
+	var out []byte
+	for c := byte(33); c < 127; c++ {
+		if seen[c] {
+			out = append(out, c)
+		}
+	}
+	return out
+}
+
+// replay runs the real function with the contract evaluated at run time: first on
+// the model's input (if any), then -- when that does not reproduce a failure -- on
+// every input of a small bounded space (strings over the contract's character
+// literals), to find a concrete failing input for the report.
+func (w *World) replay(v *FnVC, ob *Obligation, input map[string]interface{}, outDir string, search bool) *ReplayResult {
+	rr := &ReplayResult{Input: input, Mode: "model"}
+	if search {
+		rr.Mode = "bounded-search"
+	}
 	fn := v.fn
-	g := &racGen{w: w, pkg: fn.Pkg, kinds: map[string]string{}, funcs: map[string]bool{}}
+	g := &racGen{w: w, pkg: fn.Pkg, kinds: map[string]string{}, funcs: map[string]bool{}, types: map[string]types.Type{}}
 	sig := fn.Signature
-	if sig.Recv() != nil {
-		rr.Skipped = "method receiver: no replay constructor"
+	if sig.Recv() != nil && len(v.fc.ReplaySetup) == 0 {
+		rr.Skipped = "method receiver: no replay-setup in the contract"
 		return rr
 	}
-	imports := map[string]bool{}
+	imports := map[string]bool{"fmt": true}
 	qual := func(p *types.Package) string {
 		if p == fn.Pkg.Pkg {
 			return ""
@@ -293,36 +387,27 @@ func (w *World) replay(v *FnVC, ob *Obligation, input map[string]interface{}, ou
 		imports[p.Path()] = true
 		return p.Name()
 	}
-	var decl strings.Builder
+	type inp struct{ name, kind, gotype string }
+	var inputs []inp
+	for _, ri := range v.fc.ReplayInputs {
+		inputs = append(inputs, inp{ri[0], "int", "int"})
+	}
 	var args []string
-	maxLen := 4
-	for _, p := range fn.Params {
-		k := kindOfType(p.Type())
-		val, ok := input[p.Name()]
-		if !ok {
-			rr.Skipped = "no model value for parameter " + p.Name()
-			return rr
+	for pi, p := range fn.Params {
+		g.types[p.Name()] = p.Type()
+		if pi == 0 && sig.Recv() != nil {
+			g.kinds[p.Name()] = "other"
+			continue
 		}
+		k := kindOfType(p.Type())
 		g.kinds[p.Name()] = k
-		tn := types.TypeString(p.Type(), qual)
-		switch k {
-		case "string":
-			s := fmt.Sprint(val)
-			if len(s) > maxLen {
-				maxLen = len(s)
-			}
-			fmt.Fprintf(&decl, "\tvar %s %s = %s\n", goIdent(p.Name()), tn, strconv.Quote(s))
-		case "int":
-			fmt.Fprintf(&decl, "\tvar %s %s = %v\n", goIdent(p.Name()), tn, val)
-		case "bool":
-			fmt.Fprintf(&decl, "\tvar %s %s = %v\n", goIdent(p.Name()), tn, val)
-		default:
+		if k != "string" && k != "int" && k != "bool" {
 			rr.Skipped = "parameter " + p.Name() + " of type " + p.Type().String() + " cannot be built from a model"
 			return rr
 		}
+		inputs = append(inputs, inp{p.Name(), k, types.TypeString(p.Type(), qual)})
 		args = append(args, goIdent(p.Name()))
 	}
-	// results
 	var resNames []string
 	for i := 0; i < sig.Results().Len(); i++ {
 		r := sig.Results().At(i)
@@ -336,24 +421,36 @@ func (w *World) replay(v *FnVC, ob *Obligation, input map[string]interface{}, ou
 		g.kinds[n] = kindOfType(r.Type())
 		if i == 0 {
 			g.kinds["result"] = kindOfType(r.Type())
-			g.kinds["result0"] = kindOfType(r.Type())
 		}
 		g.kinds["result"+strconv.Itoa(i)] = kindOfType(r.Type())
 		resNames = append(resNames, n)
 	}
+	// ---- the check function: returns "" or a description of the violation
 	var body strings.Builder
-	body.WriteString(decl.String())
-	fmt.Fprintf(&body, "\tracBound = %d\n", maxLen*2+4)
-	// requires of default behaviour must hold, else the input is outside the contract
+	var ps []string
+	for _, in := range inputs {
+		ps = append(ps, goIdent(in.name)+" "+in.gotype)
+	}
+	fmt.Fprintf(&body, "func foxvcCheck(%s) (bad string) {\n", strings.Join(ps, ", "))
+	for _, st := range v.fc.ReplaySetup {
+		fmt.Fprintf(&body, "\t%s\n", st)
+	}
 	for _, cl := range v.fc.Clauses {
 		if cl.Kind == "requires" && cl.Behav == "" {
+			g.fail = ""
 			c, _ := g.expr(cl.E)
-			fmt.Fprintf(&body, "\tif !(%s) { t.Skip(\"input outside the precondition\") }\n", c)
+			if g.fail == "" {
+				fmt.Fprintf(&body, "\tif !(%s) { return \"\" }\n", c)
+			}
 		}
 	}
 	call := fn.Name() + "(" + strings.Join(args, ", ") + ")"
+	if sig.Recv() != nil {
+		call = goIdent(fn.Params[0].Name()) + "." + call
+	}
+	body.WriteString("\tdefer func() { if r := recover(); r != nil { bad = fmt.Sprintf(\"panic: %v\", r) } }()\n")
 	if len(resNames) > 0 {
-		fmt.Fprintf(&body, "\tvar %s = func() (%s) {\n\t\tdefer func() { if r := recover(); r != nil { t.Fatalf(\"REPLAY-VIOLATION panic: %%v\", r) } }()\n\t\treturn %s\n\t}()\n", strings.Join(resNames, ", "), resultTypes(sig, qual), call)
+		fmt.Fprintf(&body, "\t%s := %s\n", strings.Join(resNames, ", "), call)
 		for i, n := range resNames {
 			fmt.Fprintf(&body, "\t_ = %s\n", n)
 			if i == 0 && n != "result" {
@@ -364,7 +461,7 @@ func (w *World) replay(v *FnVC, ob *Obligation, input map[string]interface{}, ou
 			}
 		}
 	} else {
-		fmt.Fprintf(&body, "\tfunc() {\n\t\tdefer func() { if r := recover(); r != nil { t.Fatalf(\"REPLAY-VIOLATION panic: %%v\", r) } }()\n\t\t%s\n\t}()\n", call)
+		fmt.Fprintf(&body, "\t%s\n", call)
 	}
 	nchecks := 0
 	for _, cl := range v.fc.Clauses {
@@ -393,24 +490,105 @@ func (w *World) replay(v *FnVC, ob *Obligation, input map[string]interface{}, ou
 		if label == "" {
 			label = cl.Text
 		}
-		fmt.Fprintf(&body, "\tif (%s) && !(%s) { t.Errorf(\"REPLAY-VIOLATION ensures %%s violated\", %s) }\n", guard, c, strconv.Quote(label))
+		fmt.Fprintf(&body, "\tif (%s) && !(%s) { return \"ensures \" + %s + \" violated\" }\n", guard, c, strconv.Quote(label))
 		nchecks++
 	}
+	body.WriteString("\treturn \"\"\n}\n")
 	if nchecks == 0 {
 		rr.Skipped = "no executable postcondition"
 		return rr
 	}
+	// ---- the driver
+	var drv strings.Builder
+	testName := "TestFoxvcReplay"
+	fmt.Fprintf(&drv, "func %s(t *testing.T) {\n", testName)
+	if !search {
+		var callArgs []string
+		maxLen := 4
+		for _, in := range inputs {
+			val, ok := input[in.name]
+			if !ok {
+				rr.Skipped = "no model value for " + in.name
+				return rr
+			}
+			switch in.kind {
+			case "string":
+				s := fmt.Sprint(val)
+				if len(s) > maxLen {
+					maxLen = len(s)
+				}
+				callArgs = append(callArgs, in.gotype+"("+strconv.Quote(s)+")")
+			default:
+				callArgs = append(callArgs, fmt.Sprintf("%s(%v)", in.gotype, val))
+			}
+		}
+		fmt.Fprintf(&drv, "\tracBound = %d\n", maxLen+3)
+		fmt.Fprintf(&drv, "\tif bad := foxvcCheck(%s); bad != \"\" { t.Fatalf(\"REPLAY-VIOLATION %%s\", bad) }\n}\n", strings.Join(callArgs, ", "))
+	} else {
+		// bounded search: one string input enumerated, integer inputs from a small set
+		strIdx := -1
+		for i, in := range inputs {
+			if in.kind == "string" {
+				if strIdx >= 0 {
+					rr.Skipped = "bounded search supports one string input"
+					return rr
+				}
+				strIdx = i
+			}
+		}
+		if strIdx < 0 {
+			rr.Skipped = "bounded search needs a string input"
+			return rr
+		}
+		alpha := charLits(v.fc, w)
+		maxL := 7
+		for pow(len(alpha), maxL) > 3000000 && maxL > 3 {
+			maxL--
+		}
+		fmt.Fprintf(&drv, "\talpha := []byte(%s)\n\tracBound = %d\n\tdeadline := time.Now().Add(40 * time.Second)\n", strconv.Quote(string(alpha)), maxL+3)
+		imports["time"] = true
+		drv.WriteString("\tbuf := make([]byte, 0, 16)\n\tn := 0\n\tvar rec func(depth, L int) bool\n\trec = func(depth, L int) bool {\n\t\tif depth == L {\n\t\t\tn++\n\t\t\ts := string(buf)\n")
+		// integer inputs: small candidate sets
+		var loops, callArgs []string
+		for i, in := range inputs {
+			if i == strIdx {
+				callArgs = append(callArgs, in.gotype+"(s)")
+				continue
+			}
+			switch in.kind {
+			case "int":
+				loops = append(loops, fmt.Sprintf("for _, %s := range []int{1, 2, 3, 65535} {", goIdent(in.name)))
+				callArgs = append(callArgs, in.gotype+"("+goIdent(in.name)+")")
+			case "bool":
+				loops = append(loops, fmt.Sprintf("for _, %s := range []bool{false, true} {", goIdent(in.name)))
+				callArgs = append(callArgs, goIdent(in.name))
+			}
+		}
+		for _, l := range loops {
+			drv.WriteString("\t\t\t" + l + "\n")
+		}
+		fmt.Fprintf(&drv, "\t\t\tif bad := foxvcCheck(%s); bad != \"\" { t.Errorf(\"REPLAY-VIOLATION input=%%q args=%%v: %%s\", s, []interface{}{%s}, bad); return true }\n", strings.Join(callArgs, ", "), strings.Join(callArgs, ", "))
+		for range loops {
+			drv.WriteString("\t\t\t}\n")
+		}
+		drv.WriteString("\t\t\treturn n%4096 == 0 && time.Now().After(deadline)\n\t\t}\n\t\tfor _, c := range alpha {\n\t\t\tbuf = append(buf, c)\n\t\t\tif rec(depth+1, L) { return true }\n\t\t\tbuf = buf[:len(buf)-1]\n\t\t}\n\t\treturn false\n\t}\n")
+		fmt.Fprintf(&drv, "\tfor L := 0; L <= %d; L++ { if rec(0, L) { break } }\n\tt.Logf(\"searched %%d inputs\", n)\n}\n", maxL)
+	}
 	var src strings.Builder
+	spec := g.specFuncs()
 	fmt.Fprintf(&src, "package %s\n\nimport \"testing\"\n", fn.Pkg.Pkg.Name())
 	for _, ip := range sortedKeys(imports) {
 		fmt.Fprintf(&src, "import %q\n", ip)
 	}
 	src.WriteString("\nvar racBound = 8\n\n")
-	testName := "TestFoxvcReplay"
-	src.WriteString(g.specFuncs())
-	fmt.Fprintf(&src, "\nfunc %s(t *testing.T) {\n%s}\n", testName, body.String())
+	src.WriteString(spec)
+	src.WriteString(body.String())
+	src.WriteString(drv.String())
 	os.MkdirAll(outDir, 0o755)
 	base := sanitize(ob.Name)
+	if search {
+		base += ".search"
+	}
 	testFile := filepath.Join(outDir, base+"_replay_test.go")
 	os.WriteFile(testFile, []byte(src.String()), 0o644)
 	pkgDir := filepath.Dir(w.fset.Position(fn.Pos()).Filename)
@@ -418,7 +596,7 @@ func (w *World) replay(v *FnVC, ob *Obligation, input map[string]interface{}, ou
 	ovData, _ := json.Marshal(ov)
 	ovFile := filepath.Join(outDir, base+"_overlay.json")
 	os.WriteFile(ovFile, ovData, 0o644)
-	cmdline := []string{"go", "test", "-overlay", ovFile, "-vet=off", "-count=1", "-timeout", "60s", "-run", "^" + testName + "$", "."}
+	cmdline := []string{"go", "test", "-overlay", ovFile, "-vet=off", "-count=1", "-timeout", "120s", "-run", "^" + testName + "$", "."}
 	rr.Cmd = "cd " + pkgDir + " && GOFLAGS=-mod=mod GOPROXY=off " + strings.Join(cmdline, " ")
 	rr.TestFile = testFile
 	cmd := exec.Command(cmdline[0], cmdline[1:]...)
@@ -429,7 +607,7 @@ func (w *World) replay(v *FnVC, ob *Obligation, input map[string]interface{}, ou
 	go func() { out, _ = cmd.CombinedOutput(); close(done) }()
 	select {
 	case <-done:
-	case <-time.After(120 * time.Second):
+	case <-time.After(150 * time.Second):
 		if cmd.Process != nil {
 			cmd.Process.Kill()
 		}
@@ -437,7 +615,26 @@ func (w *World) replay(v *FnVC, ob *Obligation, input map[string]interface{}, ou
 	}
 	rr.Output = truncate(string(out), 3000)
 	rr.Confirmed = strings.Contains(string(out), "REPLAY-VIOLATION")
+	if rr.Confirmed {
+		k := strings.Index(string(out), "REPLAY-VIOLATION")
+		line := string(out)[k:]
+		if e := strings.Index(line, "\n"); e > 0 {
+			line = line[:e]
+		}
+		rr.Witness = line
+	}
 	return rr
+}
+
+func pow(a, b int) int {
+	r := 1
+	for i := 0; i < b; i++ {
+		r *= a
+		if r > 1<<40 {
+			return r
+		}
+	}
+	return r
 }
 
 func resultTypes(sig *types.Signature, qual types.Qualifier) string {
